@@ -22,4 +22,25 @@ theorem c14_roundtrip_reach {h1 : Heap} (hr : Reach h1) (u : Nat)
       (∀ r, r < h1.recs.size → h2.recCell r = h1.recCell r) :=
   c14_roundtrip_heap h1 u (reach_good2 hr).good.normal (reach_good2 hr).good.extra (reach_good2 hr).good.wf hel hni
 
+/-- **`graph_to_prov(prov_to_graph(document))`, end to end, for any document of any reachable state**: `prov_to_graph` first
+    takes `document.unified()`; when that succeeds with result `nd`, the state it leaves is reachable again, so the round trip
+    theorem applies to the unified document itself — declared elements and a permutation of exactly the two-ended relations
+    of the unified document come back as `==` copies in a new document, nothing that existed is written -/
+theorem c14_roundtrip_of_unified_reach {h : Heap} (hr : Reach h) (d : Nat) (h1 : Heap) (nd : Nat)
+    (hres : h.unifiedDoc d = (h1, .ok nd))
+    (hel : (h1.getRecords nd .element).Nodup) (hni : ∀ r ∈ h1.getRecords nd .relation, notInfluence h1 r) :
+    let st0 := (h1.getRecords nd .element).foldl (elemStep h1) ⟨[], [], [], []⟩
+    let st := (h1.getRecords nd .relation).foldl (graphStep h1) st0
+    ∃ h2 rels news, h1.graphToProv st = (h2, .ok h1.conts.size) ∧
+      rels.Perm ((h1.getRecords nd .relation).filter (bothPresent h1)) ∧
+      (h2.cont h1.conts.size).records = news ∧
+      news.length = (st0.nodes.filterMap (·.declared) ++ rels).length ∧
+      (∀ p ∈ (st0.nodes.filterMap (·.declared) ++ rels).zip news, recEq (h1.recCell p.1).r (h2.recCell p.2).r = true) ∧
+      (∀ r, r < h1.recs.size → h2.recCell r = h1.recCell r) := by
+  have hr1 : Reach h1 := by
+    have := Reach.derive (.unifiedDoc d) hr
+    simp only [dstep, hres] at this
+    exact this
+  exact c14_roundtrip_reach hr1 nd hel hni
+
 end Prov.C14
